@@ -62,6 +62,9 @@ func checkC03(c *Ctx) {
 	live := c.LiveReach()
 	isEventNonce := func(v ssa.Value) bool { return p.Leaves(v, ana.PVOpt{}).HasField("ExternalEvent.EventNonce") }
 
+	// Minter events get their nonces from the connector: its restart / numbering clauses (C20)
+	c.include("connector", "C20", rulesIn("C20.cursor", "C20.counted-iff-valid"))
+
 	// ---- C03.nonce-writer ---------------------------------------------------
 	r.Min("C03.nonce-writer", 2)
 	ws := c.Writers(live, "Set", "LastObservedEventNonceKey")
@@ -352,9 +355,11 @@ func checkC03(c *Ctx) {
 	}
 
 	// ---- C03.contiguity (= C02.one-vote) ----------------------------------------
-	r.Min("C03.contiguity", 3)
+	r.Min("C03.contiguity", 5)
 	msgBlock := p.Reach(append(append([]*ssa.Function{}, roots.Msg...), roots.Block...)...)
-	for _, st := range votesAppends(c, msgBlock, "ExternalEventVoteRecord") {
+	vas := votesAppends(c, msgBlock, "ExternalEventVoteRecord")
+	for _, st := range vas {
 		c.checkContiguity("C03.contiguity", st)
 	}
+	c.checkNonceWriters("C03.contiguity", vas)
 }
